@@ -572,6 +572,13 @@ class Exec:
             raise SymErr('no class attribute %s' % attr)
         if isinstance(base, (SSeq, bytes, str)):
             return SeqMethod(base, attr)
+        if isinstance(base, SOpt) and isinstance(base.val, Ref):
+            self.oblige(st, NOT(base.isnone), 'no-AttributeError(None.%s)' % attr, node)
+            return self.getattr(base.val, attr, st, node)
+        if isinstance(base, (SInt, SOpt)) and getattr(self.c, 'attr_model', None) is not None:
+            r = self.c.attr_model(base, attr)
+            if r is not NotImplemented:
+                return r
         if isinstance(base, (SInt, SOpt)) and hasattr(self.c, 'method_model'):
             return SeqMethod(base, attr)          # an abstract (int-coded) value: methods are interpreted by the contract
         if isinstance(base, BuiltinVal):
